@@ -141,6 +141,42 @@ pub fn connect_proxy_then_tls(cert: &'static str) -> Peer {
     Peer { addr, seen, handle: Some(handle) }
 }
 
+/// A proxy that refuses CONNECT with `status` and then keeps listening for 200 ms: a client that comes back on a second
+/// connection with a plain request is answered in plain text and noted (`seen.plaintext_retry`).
+pub fn connect_refusing_proxy(status: u16) -> Peer {
+    let (l, addr) = listener();
+    let seen = Arc::new(Mutex::new(Seen::default()));
+    let s2 = seen.clone();
+    let handle = std::thread::spawn(move || {
+        if let Ok((mut sock, _)) = l.accept() {
+            s2.lock().unwrap().accepted = true;
+            let _ = sock.set_read_timeout(Some(Duration::from_secs(5)));
+            if let Ok(h) = read_head(&mut sock) {
+                s2.lock().unwrap().connect_head = Some(h);
+                let _ = sock.write_all(format!("HTTP/1.1 {status} Refused\r\nContent-Length: 0\r\n\r\n").as_bytes());
+            }
+            drop(sock);
+            let _ = l.set_nonblocking(true);
+            let t0 = std::time::Instant::now();
+            while t0.elapsed() < Duration::from_millis(200) {
+                if let Ok((mut sock, _)) = l.accept() {
+                    let _ = sock.set_nonblocking(false);
+                    let _ = sock.set_read_timeout(Some(Duration::from_millis(500)));
+                    let mut buf = [0u8; 256];
+                    let n = sock.read(&mut buf).unwrap_or(0);
+                    if n > 0 && buf[0] != 0x16 {
+                        s2.lock().unwrap().plaintext_retry = Some(String::from_utf8_lossy(&buf[..n.min(80)]).into_owned());
+                        let _ = sock.write_all(b"HTTP/1.1 200 OK\r\nContent-Length: 9\r\n\r\nplaintext");
+                    }
+                    break;
+                }
+                std::thread::sleep(Duration::from_millis(5));
+            }
+        }
+    });
+    Peer { addr, seen, handle: Some(handle) }
+}
+
 /// https proxy: TLS to the proxy itself, then a plain absolute-form request which it answers directly. When the handshake
 /// fails, the listener stays open for a moment: a client that comes back without TLS is answered in plain text and noted.
 pub fn https_proxy(cert: &'static str) -> Peer {
